@@ -115,6 +115,16 @@ PROPS["C26"] = dict(
           "the last fragment, or receives exactly the first PDU of the logical stream (a P-DATA PDU), appends the data of its values in "
           "order, records the last flag, and leaves exactly the rest of the stream for the next receive; the receive loop terminates",
           expected_verified=7),
+        N("C26.writer_messages",
+          "cp /repo/Cargo.lock /verif/witness/Cargo.lock && CARGO_TARGET_DIR=/verif/build/witness cargo run --offline -q --release "
+          "--manifest-path /verif/witness/Cargo.toml --bin c26_writer_messages 2>&1 | grep -E '^(WITNESS|EXHAUSTIVE|SKIPPED|error)' | tail -12",
+          "message level, on the compiled synchronous PDataWriter through a real association over a loopback TCP connection inside the process "
+          "(acceptor maximum PDU length = the library's minimum): payloads of 0, 1, 2 bytes and around 1x, 2x, 3x the maximum data length, "
+          "written in one write, byte by byte, in 7 / 500 / 1000-byte writes, in writes straddling the PDU boundary and after an empty "
+          "write: every PDU received is a P-DATA-TF of length <= the maximum with exactly one value for the chosen presentation context, "
+          "only the final one marked last, and the values concatenate to the payload (skipped, not failed, where loopback TCP is unavailable)",
+          bound="77 (payload size, write schedule) pairs (native run of the compiled code; not a deductive result)",
+          fns=[("ul/src/association/pdata.rs", "setup_pdata_header")], timeout=600),
         N("C26.reader_messages",
           "cp /repo/Cargo.lock /verif/witness/Cargo.lock && CARGO_TARGET_DIR=/verif/build/witness cargo run --offline -q --release "
           "--manifest-path /verif/witness/Cargo.toml --bin c26_reader_messages 2>&1 | grep -E '^(WITNESS|EXHAUSTIVE|error)' | tail -12",
@@ -198,6 +208,12 @@ PROPS["C18"] = dict(
           "max(|data|, 1) when 0, rounded up to even) there are ceil(|data| / fs) fragments of exactly fs bytes each (even), byte j of "
           "fragment i is data[i*fs + j] or 0 beyond the data (less than one fragment of zero padding); no division by zero, no overflow",
           expected_verified=5),
+        N("C18.encode_native", _WR2 % "c18_encode",
+          "on the compiled default PixelDataWriter::encode with an encode_frame that emits frames of chosen lengths: one fragment and one "
+          "offset-table entry per frame, entry i = sum over the earlier frames of (8 + even-padded length), first entry 0",
+          bound="2406 frame-length vectors: 1-3 frames of 0-9 bytes, 4 frames of 0-5 bytes (native enumeration of the compiled code; not a "
+                "deductive result)",
+          fns=[("encoding/src/adapters.rs", "encode", r"pub\s+trait\s+PixelDataWriter")]),
         N("C18.encapsulation", _WR2 % "c18_encapsulation",
           "on the compiled code, incl. the real iterator chains (chunks_exact, fold) that the Verus units represent by contracts: "
           "Fragments::new + From<Vec<Fragments>> for 1-6 frames of 0-9 bytes (single frames also with fragment sizes 1-5): fragments even, "
@@ -252,8 +268,12 @@ PROPS["C15"] = dict(
           "cp /repo/Cargo.lock /verif/witness/Cargo.lock && CARGO_TARGET_DIR=/verif/build/witness cargo run --offline -q --release "
           "--manifest-path /verif/witness/Cargo.toml --bin c15_exhaustive 2>&1 | grep -E '^(WITNESS|EXHAUSTIVE|error)' | tail -12",
           "every one of the 2^32 tags: StandardDataDictionary::by_tag == the statement's precedence evaluated over the table rows "
-          "parsed from the text of dictionary-std/src/tags.rs (exact, repeating group, repeating element, private creator, group length, none)",
-          bound="exhaustive over all 4 294 967 296 tags (finite domain, compiled code; not a deductive proof)",
+          "parsed from the text of dictionary-std/src/tags.rs (exact, repeating group, repeating element, private creator, group length, none); "
+          "every keyword of the table resolves through by_name / by_expr / parse_tag to an entry with that keyword and tag, near-miss spellings "
+          "(other case, padded) resolve to nothing, the three text forms of a tag resolve to its entry; every row of the SOP class table (text "
+          "of uids.rs) is found by UID and by keyword as the same entry, UIDs unique",
+          bound="exhaustive over all 4 294 967 296 tags, all 5344 table rows / keywords and all SOP class rows (finite domains, compiled code; "
+                "not a deductive proof)",
           fns=[(_DD, "indexed_tag", r"impl\s+StandardDataDictionary\b")]),
     ],
     assumptions=[
@@ -265,7 +285,7 @@ PROPS["C15"] = dict(
         "Option::or_else contract assumed (calls the closure iff None); closure postconditions are ghost annotations inserted by a declared rewrite",
         "(lo..=hi).contains(&x) rewritten to a verified helper with the same meaning",
     ],
-    uncovered=["content of the 5000 generated ENTRIES vs. the published PS3.6 table", "keyword lookup (by_name), tag constants, SOP class / UID dictionaries"],
+    uncovered=["content of the generated ENTRIES vs. the published PS3.6 table", "tag constants (compile-time items of the generated file)", "UID dictionaries other than SOP classes"],
 )
 
 # ----------------------------------------------------------------------- C07
@@ -340,7 +360,7 @@ PROPS["C25"] = dict(
           "structure finds every PDU, item, sub-item and PDV length equal to the content it describes; the PDU reads back equal consuming "
           "exactly its bytes (also when more bytes follow); every strict prefix reads as incomplete; item content of 65535 bytes is "
           "written and read back while 65536 bytes make writing fail; strict mode rejects a PDU one byte above the maximum",
-          bound="189 PDUs and every one of their strict prefixes (native enumeration of the compiled code; not a deductive result)",
+          bound="238 PDUs and every one of their strict prefixes (native enumeration of the compiled code; not a deductive result)",
           fns=[("ul/src/pdu/writer.rs", "write_pdu"), ("ul/src/pdu/reader.rs", "read_pdu")]),
     ],
     assumptions=[
@@ -398,6 +418,16 @@ PROPS["C11"] = dict(
         K("C11.multi_int_n1_all", "ext", [h for h in _ALL_MULTI_N1 if h not in _QUICK_MULTI_N1],
           "the remaining source x target combinations (7 x 8 in total)", tier="thorough",
           complete=False, bound="1 item (concrete length), contents symbolic", timeout=600),
+        N("C11.text", _WR2 % "c11_text",
+          "the textual clauses, on the compiled code (str parsing / String handling are outside both verifiers): to_int / to_multi_int / "
+          "to_float32 / to_float64 / to_multi_float32 / to_multi_float64 on Str and Strs values parse after trimming any mix of spaces and NULs "
+          "at both ends, single-valued conversions take the first string, multi-valued ones give one result per string in order, a string "
+          "that is not a number or is out of range makes the conversion fail (nothing skipped or wrapped); extend_str on Empty / Str / Strs / "
+          "non-textual values; numbers appended as text to Str / Strs by the six extend_* functions; truncate on Str / Strs / Date / Time / "
+          "DateTime",
+          bound="7399 checks over 8 integers x 36 paddings x 4 value shapes, 7 non-numbers, decimal texts, and the listed edits (native "
+                "enumeration of the compiled code; not a deductive result)",
+          fns=[(_PV, "extend_str", r"impl\s+PrimitiveValue")]),
         K("C11.extend", "ext",
           ["c11::c11_extend_u16_onto_u16", "c11::c11_extend_u16_onto_u8", "c11::c11_extend_u16_onto_empty"] +
           ["c11b::c11_ext_%s_on_%s" % (f, t) for f in _EXT for t in _EXT_TARGETS],
@@ -421,7 +451,7 @@ PROPS["C11"] = dict(
     ],
     assumptions=["error values are forgotten, never dropped or formatted in the harness; Backtrace capture stubbed",
                  "num_traits::NumCast is compiled and checked (not trusted)"],
-    uncovered=["textual numbers (str::parse after trimming)", "extend_str and numbers appended to textual values (to_string)", "F64 -> f32 narrowing",
+    uncovered=["textual numbers, extend_str and numbers appended to textual values: deductively uncovered (only the native unit C11.text)", "F64 -> f32 narrowing",
                "DataElement / Value wrappers in header.rs and value/mod.rs (thin delegations)"],
 )
 
@@ -445,6 +475,13 @@ PROPS["C04"] = dict(
           "encode_collection_delimited (multi-valued date / time / date-time / string values): the count returned equals the "
           "bytes appended to the sink (elements + one backslash between consecutive values), for any number of values",
           expected_verified=2, witness=dict(cmd=_WR % "c04_elements")),
+        N("C04.streams", _WR % "c01_objects",
+          "data-set level, on the compiled code: five in-memory objects (flat with every kind of value incl. odd lengths, empty values, private "
+          "attributes, non-ASCII text; sequences nested three deep incl. an empty sequence and an empty item; encapsulated pixel data with offset "
+          "table and two fragments) written with write_dataset_with_ts in Implicit VR LE, Explicit VR LE, Explicit VR BE and Deflated Explicit "
+          "VR LE: the written stream is walked by an independent recursive reader of the PS3.5 layout: every defined value length is even and its bytes follow, undefined-length sequences and items are closed by the matching delimiters, defined lengths end where they say, tags ascend, nothing is left over",
+          bound="15 (object, transfer syntax) pairs (the deflated stream is only round-tripped) + 6 hand-encoded streams with defined-length sequences / items, which must be reproduced byte for byte when the recorded lengths are kept (native run of the compiled code; not a deductive result)",
+          fns=[("object/src/mem.rs", "write_dataset_with_ts")]),
         N("C04.elements", _WR % "c04_elements",
           "element level, on the compiled code: StatefulEncoder::encode_primitive_element with the three real encoders over every "
           "VR-appropriate value shape of small size (single / multi-valued text incl. ISO_IR 100 non-ASCII, bytes, numbers of every width, "
@@ -501,6 +538,13 @@ PROPS["C01"] = dict(
         K("C01.multi_value_decoders", "ext", ["c01::c01_us_into_be_n3", "c01::c01_ul_into_le_n2"],
           "decode_us_into / decode_ul_into fill every slot from consecutive values in order",
           complete=False, bound="3 resp. 2 values (concrete lengths), bytes symbolic"),
+        N("C01.objects", _WR % "c01_objects",
+          "data-set level, on the compiled code: five in-memory objects (flat with every kind of value incl. odd lengths, empty values, private "
+          "attributes, non-ASCII text; sequences nested three deep incl. an empty sequence and an empty item; encapsulated pixel data with offset "
+          "table and two fragments) written with write_dataset_with_ts in Implicit VR LE, Explicit VR LE, Explicit VR BE and Deflated Explicit "
+          "VR LE: the stream read back in the same transfer syntax is equal to the written object up to the documented normalisations, and writing it again gives the same bytes",
+          bound="20 (object, transfer syntax) pairs + 6 hand-encoded streams with defined-length sequences / items re-written with the recorded lengths kept and with the default strategy (native run of the compiled code; not a deductive result)",
+          fns=[("object/src/mem.rs", "write_dataset_with_ts"), ("object/src/mem.rs", "read_dataset_with_ts")]),
         N("C01.elements", _WR % "c01_elements",
           "element level, on the compiled code (Kani aborts on StatefulDecoder::read_value): an element written by the real "
           "StatefulEncoder::encode_primitive_element and read back by the real StatefulDecoder (decode_header + read_value / "
@@ -548,8 +592,11 @@ PROPS["C12"] = dict(
           "months, all days) and every valid time without fraction (second 0-60), plus fractions of 1-6 digits at boundary values: the "
           "text written by to_encoded has the prescribed length and parses back to an equal value consuming all bytes; earliest / latest "
           "are the first / last instant consistent with the components (independent calendar and microsecond arithmetic); out-of-range "
-          "components are rejected by the constructors",
-          bound="4 199 117 values: exhaustive for dates and fraction-less times, boundary samples for fractions (native enumeration of the "
+          "components are rejected by the constructors; date-time values (4 dates x 7 times x 7 time-zone offsets incl. negative and "
+          "half-hour ones): text = date text + time text + offset, parses back equal, earliest / latest = bounds of the parts in the value's "
+          "own offset, a time after an imprecise date is rejected; range texts A-B, A-, -B for dates, times and date-times = earliest of A "
+          ".. latest of B",
+          bound="4 199 485 values: exhaustive for dates and fraction-less times, boundary samples for fractions, date-times and ranges (native enumeration of the "
                 "compiled code; not a deductive result)",
           fns=[("core/src/value/partial.rs", "to_encoded", r"impl\s+DicomDate\s*\{"), ("core/src/value/partial.rs", "to_encoded", r"impl\s+DicomTime\s*\{")]),
         K("C12.parse_kani_crosscheck", "ext", ["c12::c12_parse_date_y", "c12::c12_parse_time_h"],
@@ -565,8 +612,7 @@ PROPS["C12"] = dict(
         "chrono: NaiveTime::from_hms_micro_opt is Some iff hour<24, min<60, sec<60 and micro<10^6, or sec==59 and micro<2*10^6 (leap second representation; ASSUMED)",
     ],
     uncovered=["to_encoded (format!) is outside both verifiers (Kani exceeds its budget in the fmt machinery): covered only by the native unit C12.native",
-               "date-time values, time-zone offsets (chrono FixedOffset)", "AsRange for DicomDateTime (chrono DateTime/FixedOffset arithmetic)",
-               "range texts A-B, A-, -B (parse_date_range / parse_time_range)"],
+               "date-time values, time-zone offsets, AsRange for DicomDateTime and range texts: deductively uncovered (chrono arithmetic; only the native unit C12.native)"],
 )
 
 # ----------------------------------------------------------------------- C14
@@ -655,6 +701,13 @@ PROPS["C09"] = dict(
           bound="972 tables: every presence combination of the optional attributes with even- and odd-length values (native enumeration; survives "
                 "restructurings of the computation that the extraction cannot follow; not a deductive result)",
           fns=[("object/src/meta.rs", "calculate_information_group_length"), ("object/src/meta.rs", "write", r"impl\s+FileMetaTable")]),
+        N("C09.preamble", _WR % "c09_preamble",
+          "preamble clause, on the compiled code: complete files (2 objects x 2 transfer syntaxes) written with write_all and read back from a "
+          "byte source and by path, with the 128-byte preamble (zero or arbitrary content) and without it, with the preamble option Auto / Always "
+          "/ Never where they apply: every way gives the same object, whose meta table is the one written and which writes back to the same "
+          "bytes; truncated starts and a missing magic code are errors, never panics",
+          bound="96 checks over 4 files (native run of the compiled code, temporary files under /verif/build; not a deductive result)",
+          fns=[("object/src/file.rs", "from_reader", r"impl<D,\s*T>\s+OpenFileOptions<D,\s*T>")]),
         N("C09.after_operations", _WR % "c09_after_operations",
           "'this still holds after any supported attribute operation': every attribute action kind (Remove, Empty, SetVr, Set, SetStr, "
           "SetIfMissing, SetStrIfMissing, Replace, ReplaceStr, Push*, Truncate) applied through ApplyOp::apply to each file meta attribute "
@@ -669,8 +722,7 @@ PROPS["C09"] = dict(
                  "header sizes 8 (UI, SH, AE) and 12 (OB) are those proved for the real Explicit VR LE encoder in C03",
                  "closure postconditions are ghost annotations inserted by a declared rewrite that carries the constant found in the code into the annotation"],
     uncovered=["that update_information_group_length / the builder store this value, and that FileMetaTable::write emits exactly these bytes "
-               "(writer pipeline: DataSetWriter, not within reach)", "deductive treatment of reading the group back and of attribute operations (only the native units cover them)",
-               "preamble detection when opening files"],
+               "(writer pipeline: DataSetWriter, not within reach)", "deductive treatment of reading the group back, of attribute operations and of preamble detection (only the native units cover them)"],
 )
 
 # ----------------------------------------------------------------------- C34
